@@ -238,6 +238,13 @@ def run_case(c, d):
         c.require('read:sides-equals-fresh-object', rep_sides == ref_sides, dict(det, got=rep_sides, want=ref_sides), feats)
         c.require('read:NFFT-is-the-assigned-value', rep_nfft == st['NFFT'], dict(det, got=rep_nfft, want=st['NFFT']), feats)
         c.compare('read:df-is-sampling/NFFT', df, st['fs'] / float(st['NFFT']), 1e-12, feats, scale=st['fs'], detail=det)
+        nf = st['NFFT']
+        dfx = st['fs'] / float(nf)
+        axis = {'onesided': np.arange(refs.onesided_len(nf)) * dfx, 'twosided': np.arange(nf) * dfx,
+                'centerdc': (np.arange(nf) - nf // 2) * dfx}.get(rep_sides)
+        if axis is not None:
+            c.compare('read:frequencies-lie-on-the-grid-of-the-assigned-sampling-and-NFFT', np.asarray(fr, dtype=float), axis,
+                      1e-12, feats, scale=st['fs'], detail=det)
         f2 = dict(feats)
         charact = None
         if feats['datatype'] == 'real' and st['NFFT'] % 2 and rep_sides in ('twosided', 'centerdc'):
